@@ -28,7 +28,7 @@ class Contract:
     def __init__(self, target, prop, cases=None, inputs=None, pre=None, returns=None, ensures=None,
                  raises=None, yields_count=None, yields_item=None, invariants=None, result=None,
                  modular=True, allow_exc=(), notes=(), frame=None, loop_havoc=None, expect=None,
-                 may_raise=None, events=None, abstract_hook=None, native=None, assumed=False, on_raise=None, best_effort=False, applicable=None):
+                 may_raise=None, events=None, abstract_hook=None, native=None, assumed=False, on_raise=None, best_effort=False, applicable=None, record_call=False):
         self.target = target
         self.prop = prop
         self.cases = cases or ["-"]
@@ -52,6 +52,7 @@ class Contract:
         self.abstract_hook = abstract_hook    # model of calls on abstract objects while verifying this fn
         self.native = native                  # name of the native replay function (contracts/native.py)
         self.on_raise = on_raise or []        # list of (name, fn(A)): must hold when the function raises
+        self.record_call = record_call        # modular uses are recorded in the ghost trace as Event(None, 'call:<name>', args)
         self.applicable = applicable          # structural guard (python bool) for modular use; if False the callee is inlined
         self.best_effort = best_effort        # undecided jobs are listed as not covered instead of making the run undecided
         self.assumed = assumed                # contract NOT verified (external / trusted): only usable at call sites, listed as assumption
@@ -324,6 +325,9 @@ def apply_contract(I, ctr, fv, values):
         if len(ens) > 2 and not ens[2].get("modular", True):
             continue      # proved for the callee, but not needed (and costly) at call sites
         ctx.assume(ens[1](A, res))
+    if ctr.record_call:
+        from .libmodels import Event
+        ctx.trace.append(Event(None, "call:" + callee, [], dict(values), res, getattr(ctx, "loop_k", None)))
     return res
 
 
